@@ -783,6 +783,11 @@ impl C15 {
                     }
                 }
             };
+            // remaining accounts: supplemental tick arrays are pool accounts; transfer-hook accounts are not (and those of a
+            // token the call does not move are never looked at)
+            if slot == "remaining" && kind != Kind::TickArray {
+                continue;
+            }
             if kind == Kind::Other {
                 // any other program-owned record type (lock config, token badge, config extension, ...): another record
                 // of the same type must not do
@@ -986,6 +991,47 @@ impl C15 {
                     // a listed known finding must not hide other cells: keep enumerating
                     if crate::run::is_known(&crate::run::load_known_findings(), out.last().unwrap()).is_none() {
                         return;
+                    }
+                }
+            }
+        }
+        // the v1 form of a v2 liquidity / collect instruction on a pool with a Token-2022 mint, with the Token-2022 program (or
+        // the classic one) in its single `token_program` slot: the v1 forms know nothing of transfer fees, memos or hooks and
+        // must refuse such a pool
+        if matches!(name, "increase_liquidity_v2" | "decrease_liquidity_v2" | "collect_fees_v2") {
+            if let Some(pool) = c.acct("whirlpool").and_then(|w| l.data(&w).and_then(decode::pool)) {
+                let t22 = |m: &Pubkey| l.get(m).map(|a| a.owner == ix::tok22()).unwrap_or(false);
+                if t22(&pool.mint_a) || t22(&pool.mint_b) {
+                    let keys = crate::mon::c01::pool_keys(&c.a("whirlpool"), &pool, l);
+                    let la = crate::ix::LiqAccounts {
+                        pool: keys,
+                        authority: c.a("position_authority"),
+                        position: c.a("position"),
+                        position_token_account: c.a("position_token_account"),
+                        owner_a: c.a("token_owner_account_a"),
+                        owner_b: c.a("token_owner_account_b"),
+                        ta_lower: c.acct("tick_array_lower").unwrap_or_default(),
+                        ta_upper: c.acct("tick_array_upper").unwrap_or_default(),
+                    };
+                    let (liq, b0, b1) = if name == "collect_fees_v2" { (0, 0, 0) } else { wpix::liq_args(c) };
+                    let v1 = match name {
+                        "increase_liquidity_v2" => ix::increase_liquidity(&la, liq, b0, b1),
+                        "decrease_liquidity_v2" => ix::decrease_liquidity(&la, liq, b0, b1),
+                        _ => ix::collect_fees(&la),
+                    };
+                    let v1name = wpix::decode(&v1).map(|x| x.name()).unwrap_or("?");
+                    for prog in [ix::tok22(), ix::tok()] {
+                        let mut ixn = v1.clone();
+                        if let Some(pi) = wpix::decode(&v1).and_then(|x| x.idx("token_program")) {
+                            ixn.accounts[pi].pubkey = prog;
+                        }
+                        let r = exec(l, ixn);
+                        cov.eval(format!("{}|v1_form_on_token_2022_pool|{}", v1name, if prog == ix::tok22() { "token-2022 program" } else { "classic program" }));
+                        self.cell(format!("{} / token_program / v1 form on a pool with a Token-2022 mint", v1name), !r.ok);
+                        if r.ok {
+                            out.push(v15("foreign_account_accepted", idx, format!("{}: the v1 instruction succeeded on a pool with a Token-2022 mint with {} in its `token_program` slot (a token program that does not own both mints)", v1name, prog)));
+                            return;
+                        }
                     }
                 }
             }
